@@ -246,6 +246,28 @@ Section Eval.
   Definition run_rows_conds (sels : list path) (cs : list tcond) : list (list val) :=
     flat_map (sel_rows sels) (true_envs cs).
 
+  (* None is the object 0 (no world object has this identity).  Attribute._apply_mapping_ = getattr(value, name) raises
+     AttributeError on it: evaluating node p raises as soon as an unbound Attribute node on the way is applied to None *)
+  Definition is_none (v : val) : bool := match v with VO o => Z.eqb o 0 | _ => false end.
+  Fixpoint path_raises (p : path) (e : env) {struct p} : bool :=
+    match lookup e p with
+    | Some _ => false
+    | None =>
+        match p with
+        | PRoot => false
+        | PAttr q _ => path_raises q e || existsb (fun r : env * val => is_none (snd r)) (eval_path q e)
+        | PFlat q => path_raises q e
+        end
+    end.
+  Definition cond_path (c : tcond) : path := match c with TCmp _ _ p _ => p | THas p _ => p | TVar _ p _ => p end.
+  Fixpoint araises_all (cs : list tcond) (e : env) : bool :=
+    match cs with
+    | [] => false
+    | c :: cs' =>
+        path_raises (cond_path c) e
+        || existsb (araises_all cs') (map fst (filter (fun r : res => negb (snd r)) (eval c e)))
+    end.
+
   (* does evaluating the conditions (all results are consumed) raise TypeError *)
   Fixpoint raises_all (cs : list tcond) (e : env) : bool :=
     match cs with
@@ -261,5 +283,7 @@ Definition run (C : cmodel) (M : mworld) (T : cls) (l : alist) (dom : list Z) : 
 (* an(entity_matching / entity_selection (T, domain)(a1 = .., ..)).evaluate() as rows of the selected expressions *)
 Definition run_rows (C : cmodel) (M : mworld) (rootsel : bool) (T : cls) (l : alist) (dom : list Z) : list (list val) :=
   run_rows_conds C M (filter (fun o => sub C (otype M o) T) dom) (sels_root C rootsel T l) (tr_alist C T PRoot l).
+Definition run_araises (C : cmodel) (M : mworld) (T : cls) (l : alist) (dom : list Z) : bool :=
+  araises_all C M (filter (fun o => sub C (otype M o) T) dom) (tr_alist C T PRoot l) [].
 Definition run_raises (C : cmodel) (M : mworld) (T : cls) (l : alist) (dom : list Z) : bool :=
   raises_all C M (filter (fun o => sub C (otype M o) T) dom) (tr_alist C T PRoot l) [].
